@@ -8,7 +8,7 @@ CONSTANTS
   AllowExcl = FALSE
   AllowCat3 = TRUE
   AllowReuse = FALSE
-  Extras = FALSE
+  Extras = "no"
   AllowFindings = FALSE
   MAllowFindings = FALSE
   Conv1dExport = "pinned"
